@@ -62,11 +62,12 @@ fn model(c: &Case, src: &[u32], dst: &[u32]) -> Option<Vec<u32>> {
     let y1 = r[3].min(c.sh);
     for sy in y0..y1 {
         for sx in x0..x1 {
-            let tx = sx - r[0] + c.d[0];
-            let ty = sy - r[1] + c.d[1];
-            if tx < 0 || ty < 0 || tx >= c.dw || ty >= c.dh {
+            let tx = sx as i64 - r[0] as i64 + c.d[0] as i64;
+            let ty = sy as i64 - r[1] as i64 + c.d[1] as i64;
+            if tx < 0 || ty < 0 || tx >= c.dw as i64 || ty >= c.dh as i64 {
                 continue;
             }
+            let (tx, ty) = (tx as i32, ty as i32);
             let s = src[(sy * c.sw + sx) as usize];
             let di = (ty * c.dw + tx) as usize;
             out[di] = match c.op {
@@ -221,6 +222,37 @@ impl Check for C15 {
                 }
                 if run.expired() {
                     return;
+                }
+            }
+        });
+        // the ends of the i32 range: rectangles and destinations far outside either surface
+        let ext: Vec<i32> = vec![i32::MIN, i32::MIN + 1, -1, 0, 1, 2, i32::MAX - 1, i32::MAX];
+        run.bound("i32-extremes", format!("3x2 source, 3x3 destination: src_rect coordinates in {:?}^4, dst in the same set squared, copy / alpha 0.5", ext));
+        run.par(ext.len() * ext.len(), |si, l| {
+            let (r0, r1) = (ext[si / ext.len()], ext[si % ext.len()]);
+            for &r2 in &ext {
+                for &r3 in &ext {
+                    for &dx in &ext {
+                        for &dy in &ext {
+                            for op in [BOp::Copy, BOp::Alpha(0.5)] {
+                                let c = Case { sw: 3, sh: 2, dw: 3, dh: 3, r: [r0, r1, r2, r3], d: [dx, dy], op, ctx: false };
+                                l.states += 1;
+                                l.transitions += 1;
+                                l.traces += 1;
+                                l.evals += 1;
+                                match eval(&c) {
+                                    Res::Ok(h, moved) => {
+                                        l.outcome(h);
+                                        if moved {
+                                            l.nontrivial += 1;
+                                        }
+                                    }
+                                    Res::Skip => l.count("skipped_reference_undefined_nonseparable_overflow", 1),
+                                    Res::Bad(v) => run.report(200_000 + si, v),
+                                }
+                            }
+                        }
+                    }
                 }
             }
         });
